@@ -1380,11 +1380,21 @@ class Index(DomainMapping):
 
     @property
     def _name_(self):
-        key = self._key_
-        if type(key) not in (int, str, float, bool, slice):
-            # the key is user data and the name is needed while the query is built: do not run its __format__
-            key = f"<{type(key).__name__}>"
-        return f"{self._child_._var_._name_}[{key}]"
+        return f"{self._child_._var_._name_}[{self._printable_key_(self._key_)}]"
+
+    @classmethod
+    def _printable_key_(cls, key: Any) -> str:
+        """
+        :return: The key as text without running a method of user data: the name is needed while the query is built.
+        """
+        if type(key) is slice:
+            bounds = (key.start, key.stop) + ((key.step,) if key.step is not None else ())
+            return ":".join(
+                "" if bound is None else cls._printable_key_(bound) for bound in bounds
+            )
+        if type(key) in (int, str, float, bool):
+            return f"{key}"
+        return f"<{type(key).__name__}>"
 
 
 @dataclass(eq=False, repr=False)
